@@ -73,6 +73,38 @@ pub fn alias_cell_in_cell() {
     kani::cover!(true);
 }
 
+/// a compound update whose operator fails reports the documented error and leaves the cell (seen
+/// through every alias) exactly as it was:  c /= 0 ; c %= 0 ; c <<= 64 ; c >>= -1 ; c **= -1
+fn failing_update(op: BinOperator, rhs: i64) -> Option<ExecError> {
+    crate::variable::verif_valgate::allow_vals(1 << crate::variable::verif_valgate::V_MUT);
+    let a: i64 = kani::any();
+    let cell = Variable::Mut(new_cell(Type::Int, Variable::Int(a)));
+    let alias = cell.clone();
+    let r = assign_through(&cell, op, Variable::Int(rhs));
+    assert!(read_through(alias) == Some(a));
+    assert!(read_through(cell) == Some(a));
+    match r {
+        Ok(_) => None,
+        Err(e) => Some(e),
+    }
+}
+macro_rules! failing_update_harness {
+    ($name:ident, $op:expr, $rhs:expr, $err:pat) => {
+        #[kani::proof]
+        #[kani::unwind(5)]
+        #[kani::stub(alloc::fmt::format, crate::verif_common::stub_format)]
+        pub fn $name() {
+            assert!(matches!(failing_update($op, $rhs), Some($err)));
+            kani::cover!(true);
+        }
+    };
+}
+failing_update_harness!(failed_update_div_leaves_cell, BinOperator::AssignDivide, 0, ExecError::ZeroDivision);
+failing_update_harness!(failed_update_mod_leaves_cell, BinOperator::AssignModulo, 0, ExecError::ZeroModulo);
+failing_update_harness!(failed_update_shl_leaves_cell, BinOperator::AssignLShift, 64, ExecError::OverflowShift);
+failing_update_harness!(failed_update_shr_leaves_cell, BinOperator::AssignRShift, -1, ExecError::OverflowShift);
+failing_update_harness!(failed_update_pow_leaves_cell, BinOperator::AssignPow, -1, ExecError::NegativeExponent);
+
 // ---- typed content ---------------------------------------------------------------------------
 const ASSIGN_OPS: [BinOperator; 12] = [
     BinOperator::Assign, BinOperator::AssignAdd, BinOperator::AssignSubtract, BinOperator::AssignMultiply,
